@@ -83,3 +83,75 @@ pub fn run_gate(case: &Value) -> Value {
         && before.state_vector.iter().zip(st.state_vector.iter()).all(|(a, b)| a.re.to_bits() == b.re.to_bits() && a.im.to_bits() == b.im.to_bits()));
     out
 }
+
+fn res_key(r: &Result<State, quant_iron::errors::Error>) -> String {
+    match r {
+        Ok(s) => {
+            let mut k = format!("ok{}:", s.num_qubits);
+            for a in &s.state_vector {
+                k.push_str(&format!("{:016x}{:016x}", a.re.to_bits(), a.im.to_bits()));
+            }
+            k
+        }
+        Err(e) => format!("err:{:?}", e),
+    }
+}
+
+/// op "gate_sched": the same Operator::apply call on both CPU paths, inside rayon pools of several sizes,
+/// repeated, and from several concurrent callers sharing the input; all results are compared bit for bit.
+pub fn run_gate_sched(case: &Value) -> Value {
+    let kind = case["kind"].as_str().unwrap();
+    let params = vfs(&case["params"]);
+    let st = state_of(case);
+    let ts = vus(&case["ts"]);
+    let cs = vus(&case["cs"]);
+    let pools = vus(&case["pools"]);
+    let callers = case.get("callers").map(vu).unwrap_or(4);
+    let hook = &quant_iron::verif_hooks::PARALLEL_THRESHOLD;
+    let (op, oracle) = match make_op(kind, &params) {
+        Ok(x) => x,
+        Err(e) => return json!({"r": "ctor_err", "e": e}),
+    };
+    let mut keys: Vec<(String, String)> = vec![];
+    let mut first: Option<Result<State, quant_iron::errors::Error>> = None;
+    let mut panicked: Option<String> = None;
+    for &thr in &[64usize, 1usize] {
+        hook.set(thr);
+        for &p in &pools {
+            let pool = rayon::ThreadPoolBuilder::new().num_threads(p).build().unwrap();
+            for rep in 0..2 {
+                let r = std::panic::catch_unwind(std::panic::AssertUnwindSafe(|| pool.install(|| op.apply(&st, &ts, &cs))));
+                match r {
+                    Ok(res) => {
+                        keys.push((format!("thr{} pool{} rep{}", thr, p, rep), res_key(&res)));
+                        if first.is_none() { first = Some(res); }
+                    }
+                    Err(pn) => { panicked = Some(panic_json(pn)["msg"].as_str().unwrap_or("?").to_string()); }
+                }
+            }
+        }
+        // concurrent callers on the shared input (global pool)
+        let outs: Vec<Option<String>> = std::thread::scope(|sc| {
+            let hs: Vec<_> = (0..callers).map(|_| sc.spawn(|| {
+                std::panic::catch_unwind(std::panic::AssertUnwindSafe(|| res_key(&op.apply(&st, &ts, &cs)))).ok()
+            })).collect();
+            hs.into_iter().map(|h| h.join().unwrap_or(None)).collect()
+        });
+        for (i, o) in outs.into_iter().enumerate() {
+            match o { Some(k) => keys.push((format!("thr{} caller{}", thr, i), k)), None => panicked = Some("panic in concurrent caller".into()) }
+        }
+    }
+    hook.set(10);
+    if let Some(m) = panicked {
+        return json!({"r": "panic", "msg": m, "oracle": fs_json(&oracle)});
+    }
+    let base = keys[0].1.clone();
+    let diff: Vec<String> = keys.iter().filter(|(_, k)| *k != base).map(|(n, _)| n.clone()).collect();
+    let mut out = state_json(first.unwrap());
+    out["oracle"] = fs_json(&oracle);
+    out["variants"] = json!(keys.len());
+    out["identical"] = json!(diff.is_empty());
+    out["differing"] = json!(diff.iter().take(6).collect::<Vec<_>>());
+    out["base"] = json!(keys[0].0);
+    out
+}
